@@ -151,8 +151,54 @@ func genSpec(r *hxlib.Rng, nonneg bool) mspec {
 	}
 }
 
+// wideSpec: a non-negative literal below 2^zbits at a power-of-two boundary (or random), sized as
+// Generator.Constant sizes it.
+func wideSpec(r *hxlib.Rng, zbits int) mspec {
+	ks := []int{0, 1, 31, 32, 33, 63, 64, 65, zbits - 2, zbits - 1, zbits, r.Intn(zbits + 1)}
+	k := ks[r.Intn(len(ks))]
+	v := pow2(k)
+	switch r.Intn(4) {
+	case 0:
+		v.Sub(v, one)
+	case 1:
+		v.Add(v, one)
+	case 2:
+		v = randBits(r, k+1)
+	}
+	if v.Sign() < 0 || v.BitLen() > zbits {
+		v = new(big.Int).Sub(pow2(zbits), one)
+	}
+	return mspec{"p", v, constantSize(v.BitLen())}
+}
+
+// padProbe observes through the exported API how the signed divider of the large path brings operands of
+// different sizes to a common width: -1 as a 2-wire operand divided by 1 (4 wires) is 3 with zero padding and
+// 15 (-1 in 4 bits) with sign padding.
+func padProbe() (res string) {
+	defer func() {
+		if e := recover(); e != nil {
+			res = "panic"
+		}
+	}()
+	switch mpa.New(128).Div(mpa.NewInt(3, 2), mpa.NewInt(1, 4)).String() {
+	case "3":
+		return "zero"
+	case "15":
+		return "sign"
+	}
+	return "other"
+}
+
 func modeMpa(cf *hxlib.CommonFlags, o *hxlib.Out) {
 	r := hxlib.NewRng(cf.Seed ^ 0xabcdef)
+	o.Meta["idivider_pad"] = padProbe()
+	// fixed lines that discriminate the divider's operand padding in the model correspondence itself
+	for _, l := range [][2]mspec{{{"n", big.NewInt(3), 2}, {"n", big.NewInt(1), 4}}, {{"n", big.NewInt(1), 4}, {"n", big.NewInt(3), 2}},
+		{{"p", big.NewInt(4294967295), 32}, {"p", big.NewInt(7), 64}}} {
+		for _, op := range []string{"div", "mod"} {
+			o.Op(fmt.Sprintf("c12 mpa %s 0 new 128 %s %s", op, l[0], l[1]), runMpa(op, 0, "new", 128, l[0], l[1]))
+		}
+	}
 	for i := 0; i < cf.N; i++ {
 		cr := r.Fork()
 		op := mpaOps[i%len(mpaOps)]
@@ -170,6 +216,18 @@ func modeMpa(cf *hxlib.CommonFlags, o *hxlib.Out) {
 		var n uint
 		if op == "lsh" || op == "rsh" {
 			n = uint([]int{0, 1, 31, 32, 33, 63, 64, 65, cr.Intn(140), cr.Intn(20)}[cr.Intn(10)])
+		}
+		if i%3 == 1 {
+			// the large path as the compiler reaches it: receiver mpa.New(N), N in 65..130, operands sized
+			// by Generator.Constant, values at the 2^k-1 / 2^k / 2^k+1 boundaries (the region of the
+			// every-width theorems of Props/C12.lean)
+			zbits = []int{65, 66, 67, 96, 100, 127, 128, 129, 130, 65 + cr.Intn(66)}[cr.Intn(10)]
+			zmode = "new"
+			xs, ys = wideSpec(cr, zbits), wideSpec(cr, zbits)
+			if op == "lsh" || op == "rsh" {
+				n = uint([]int{0, 1, 31, 32, 63, 64, 65, zbits - 1, zbits, zbits + 1, cr.Intn(zbits)}[cr.Intn(11)])
+			}
+			o.Count("mpa_wide_boundary_family")
 		}
 		if cf.Only >= 0 && i != cf.Only {
 			continue
